@@ -153,6 +153,9 @@ func (p *Path) Decide(c *Term) bool {
 		p.addPC(Not(c))
 		return false
 	}
+	if time.Now().After(p.ex.deadline) {
+		panic(pathEnd{"timeout", "harness time limit reached inside a path"})
+	}
 	rT := p.check(c)
 	if rT == Unsat {
 		p.trace = append(p.trace, Decision{0, true})
@@ -484,6 +487,8 @@ func (ex *Explorer) runPath(h *Harness, ld *Loaded, prefix []Decision) {
 		res.Inconclusive = append(res.Inconclusive, fmt.Sprintf("%d branch feasibility queries returned unknown (both sides kept)", p.unknown))
 	}
 	switch status {
+	case "timeout":
+		res.Inconclusive = append(res.Inconclusive, msg)
 	case "engine-error":
 		res.Inconclusive = append(res.Inconclusive, "engine: "+msg)
 	case "unwind", "steps":
